@@ -266,6 +266,42 @@ def _ct_case(case):
     except BaseException as exc:
         out.append(("crosstalk correction raises " + type(exc).__name__,
                     repr(exc)[:100]))
+    # the same law through the dataset features flN_max_ctc, for the three
+    # channels and for every pair of channels (spill-over within the pair)
+    import dclab
+    for chans in ((1, 2, 3), (1, 2), (1, 3), (2, 3)):
+        data = {"deform": np.array([0.1, 0.2])}
+        for i in chans:
+            m = sig[i - 1] + sum(ct[j - 1][i - 1] / 100.0 * sig[j - 1]
+                                 for j in chans if j != i)
+            data["fl%d_max" % i] = np.array([m, 2 * m])
+        try:
+            ds = dclab.new_dataset(data)
+            for j in chans:
+                for i in chans:
+                    if i != j:
+                        ds.config["calculation"]["crosstalk fl%d%d" % (
+                            j, i)] = ct[j - 1][i - 1] / 100.0
+            for i in chans:
+                f = "fl%d_max_ctc" % i
+                if f not in ds:
+                    out.append(("%s not available with a complete spill "
+                                "matrix (%d channels)" % (
+                                    "flN_max_ctc", len(chans)), str(case)))
+                    continue
+                got = np.asarray(ds[f][:], dtype=float)
+                if not np.allclose(got, [sig[i - 1], 2 * sig[i - 1]],
+                                   rtol=1e-9, atol=1e-9):
+                    out.append(("flN_max_ctc does not invert the spill-over "
+                                "(%d channels)" % len(chans),
+                                "%s channels %s %s: %r" % (case, chans, f,
+                                                           got)))
+        except BaseException as exc:
+            out.append(("reading flN_max_ctc raises %s (%d channels, %s)" % (
+                type(exc).__name__, len(chans),
+                "matrix with a zero coefficient" if any(
+                    ct[j - 1][i - 1] == 0 for j in chans for i in chans
+                    if i != j) else "dense matrix"), repr(exc)[:100]))
     return {"ct": ct, "sig": case["sig"]}, out
 
 
